@@ -71,8 +71,15 @@ TSenderV == /\ IsEvent("SenderV")
                /\ (a = "err") => (e.res = "err")
             /\ UNCHANGED vars
 
+\* big-number stage: the class decides the kind of outcome
+TApplyBig == /\ IsEvent("ApplyBig")
+             /\ LET e == TraceLog[l] IN
+                BigExpect(e.cls) = (CASE e.err = "" -> "applied" [] e.err = "gas_funds" -> "refused_funds"
+                                      [] e.err = "transfer" -> "error_transfer" [] OTHER -> e.err)
+             /\ UNCHANGED vars
+
 TInit == Init /\ l = 1 /\ TLCSet(1, 0)
-TNext == TReset \/ TBegin \/ TApply \/ TResolve \/ TSenderV
+TNext == TReset \/ TBegin \/ TApply \/ TResolve \/ TSenderV \/ TApplyBig
 TSpec == TInit /\ [][TNext]_tvars
 
 HighWater == /\ TLCSet(1, IF TLCGet(1) < l THEN l ELSE TLCGet(1))
